@@ -111,6 +111,23 @@ def run(ck: Checker):
         if not positive:
             probs.append(f'L{n.lineno}: `{norm_text(n)[:60]}` is reached without a positive `isinstance(q, (queue.Queue, queue.SimpleQueue))`: a multiprocessing queue (in particular one wrapped in ResponsiveQueue because a stop event was given) gets thread-only helpers, and the object can no longer be sent to another process (cannot pickle \'_thread.lock\')')
     ck.ob('C17-7', init, thread_kind[0], not probs, probs[0] if probs else f'{len(thread_kind)} thread-kind helpers, each created under a positive isinstance test for the thread queue classes; every other queue gets multiprocessing helpers')
+    # ------------------------------------------------------------------ C17-9
+    ck.rule('C17-9', 'no wait for an item under the token lock: the end markers (the extra one that renew removes included) are put on the data queue by consumers *while they hold* `_lids_lock`; a get on the data queue under that lock waits for an item whose producer needs the lock — both hang (WAITFOR)', minimum=1)
+    bad9 = []
+    n_regions = 0
+    for m_ in cls.methods():
+        for w_ in [n for n in ast.walk(m_.node) if isinstance(n, (ast.With, ast.AsyncWith)) and any(dotted(i.context_expr) == 'self._lids_lock' for i in n.items)]:
+            n_regions += 1
+            for c_ in [c for b_ in w_.body for c in ast.walk(b_) if isinstance(c, ast.Call) and method_of(c)[1] in ('get',) and dotted(method_of(c)[0]) == 'self._q']:
+                bad9.append((m_, c_))
+        # acquire()/release() form
+        if any(isinstance(c, ast.Call) and method_of(c)[1] == 'acquire' and dotted(method_of(c)[0]) == 'self._lids_lock' for c in ast.walk(m_.node)):
+            n_regions += 1
+            for c_ in [c for c in ast.walk(m_.node) if isinstance(c, ast.Call) and method_of(c)[1] == 'get' and dotted(method_of(c)[0]) == 'self._q']:
+                bad9.append((m_, c_))
+    # (no region at all is C17-1's finding, not an anchor problem of this rule)
+    nx_ = cls.method('__next__')
+    ck.ob('C17-9', bad9[0][0] if bad9 else nx_, bad9[0][1] if bad9 else (nx_.node.lineno, 'token lock regions'), not bad9, f'{n_regions} region(s) of `_lids_lock`, none waits on the data queue' if not bad9 else f'{bad9[0][0].qualname} L{bad9[0][1].lineno}: `{norm_text(bad9[0][1])}` waits for an item of the data queue while holding `_lids_lock`; the consumer that is about to put that item (the extra end marker, after it moved the last token) needs the lock first: it waits for the lock, this waits for the item — that consumer never finishes and this call never returns')
     # ------------------------------------------------------------------ C17-8
     ck.rule('C17-8', 'a supplier waiting for the next round stays responsive: every get on the spare-token queue in put_end carries a numeric timeout (never None / a value that can be None), and a get that is retried in a loop tests the stop event after every expiry and raises StopRequested (EXITS)', minimum=2)
     pe = cls.method('put_end')
